@@ -178,7 +178,7 @@ def _change_working_directory(newdir, follow_symlinks=False):
         os.chdir(absnew)
     except OSError as e:
         print(f"cd: {e}", file=sys.stderr)
-        return
+        return False
     else:
         if old is not None:
             env["OLDPWD"] = old
@@ -188,6 +188,7 @@ def _change_working_directory(newdir, follow_symlinks=False):
     # Fire event if the path actually changed
     if old != env["PWD"]:
         events.on_chdir.fire(olddir=old, newdir=env["PWD"])
+    return True
 
 
 def _try_cdpath(apath):
@@ -284,7 +285,8 @@ def cd(args, stdin=None):
         pushd(["-n", "-q", cwd])
         if ON_WINDOWS and _is_unc_path(d):
             d = _unc_map_temp_drive(d)
-    _change_working_directory(d, follow_symlinks)
+    if not _change_working_directory(d, follow_symlinks):
+        return None, None, 1
     return None, None, 0
 
 
